@@ -208,7 +208,21 @@ def generate(repo):
                f'def fitSegSubRows (seg : Int) : Int × Int :=\n  {_islice(tr, e2.args[1].slice, envs)}\n')
     out.append(f'/-- translated from `plane.py:Plane.fit_tilt` (line {l1.lineno}): coefficients of `t[seg]` used for the subtraction -/\n'
                f'def fitSegSubCoefs : Int × Int :=\n  {_islice(tr, e2.args[2].slice.elts[1], envs)}\n')
-    if ast.unparse(l2) != 'opd_no_tilt[seg] = (plane.opd - seg_tilt.reshape(plane.opd.shape)) * self.mask[seg]': raise Refuse('fit_tilt (segments): opd_no_tilt changed')
+    # the per-segment term, translated per sample: `.reshape(plane.opd.shape)` keeps the sample, `self.mask[seg]` is the segment's mask value
+    if not (isinstance(l2, ast.Assign) and ast.unparse(l2.targets[0]) == 'opd_no_tilt[seg]'): raise Refuse('fit_tilt (segments): opd_no_tilt[seg] is no longer assigned in the loop')
+    class _T(ast.NodeTransformer):
+        def visit_Call(self, n):
+            n = self.generic_visit(n)
+            if isinstance(n.func, ast.Attribute) and n.func.attr == 'reshape' and [ast.unparse(a) for a in n.args] == ['plane.opd.shape'] and not n.keywords: return n.func.value
+            return n
+        def visit_Subscript(self, n):
+            if ast.unparse(n) == 'self.mask[seg]': return ast.Name(id='mask_seg', ctx=ast.Load())
+            return self.generic_visit(n)
+    term = _rx(_T().visit(ast.parse(ast.unparse(l2.value), mode='eval').body), {'plane.opd': 'opd', 'seg_tilt': 'seg_tilt', 'mask_seg': 'mask_seg', '__one__': 'one'})
+    if isinstance(term, list): raise Refuse('fit_tilt (segments): opd_no_tilt term is not a scalar expression')
+    out.append(f'/-- translated from `plane.py:Plane.fit_tilt` (line {l2.lineno}): the term of segment `seg` at one sample, `opd_no_tilt[seg]`; `opd` = `plane.opd`, `seg_tilt` = the\n'
+               f'subtracted ramp, `mask_seg` = `self.mask[seg]` at that sample; the new OPD is the sum of these terms over the segments -/\n'
+               f'def fitSegOpdTerm {RC} (opd seg_tilt mask_seg : R) : R :=\n  {term}\n')
     rest = [ast.unparse(s) for s in seg if not isinstance(s, ast.For)]
     if 'plane.opd = np.sum(opd_no_tilt, axis=0)' not in rest: raise Refuse('fit_tilt (segments): plane.opd is no longer the sum over segments')
     ext = _one([s for s in seg if isinstance(s, ast.Expr) and isinstance(s.value, ast.Call) and ast.unparse(s.value.func) == 'plane.tilt.extend'], 'fit_tilt: tilt.extend')
